@@ -153,6 +153,7 @@ package kafka
 // clauses).  `go pc.consume()` is outside the tool's reach (goroutine start).
 
 //@ func (*splitConsume).Assigned
+//@   option check-nil yes
 //@   pure
 //@   ghost gid int = 0
 //@   ghost gkey seq
@@ -286,6 +287,7 @@ package kafka
 // nothing itself.
 
 //@ func (*Plugin).Stop
+//@   option check-nil yes
 //@   ghost ncommit int = 0
 //@   ghost closed bool = false
 //@   ensures closed && ncommit == 1
